@@ -76,7 +76,7 @@ func run(c Case) (o hx.Outcome) {
 var spec = &hx.Spec[Case]{
 	ID:    "C14",
 	Level: "fault_enumeration",
-	Rule: "cases = (matrix) client/server/upstream compression x skip-verify per hop x writable x history of get/has/put/put-invalid over chunks planted as present/missing/other-format-only/corrupt, " +
+	Rule: "cases = (matrix) client/server/upstream compression x skip-verify per hop x writable x history of get/has/put/put-invalid over chunks planted as present/missing/other-format-only/corrupt (valid object of wrong content) or damaged (cut object, garbage, the other format's bytes in the slot, empty file: undecodable in a compressed upstream store, wrong content in an uncompressed one), " +
 		"chunk lengths 1 B..100 kB (1 MB thorough) and, in about 1 matrix case of 40, chunks whose transfer form is around or above the default maximum chunk size (256 KiB-40..256 KiB+8, ..300 KiB, ..1 MiB; incompressible and compressible), " +
 		"plus fixed cases with raw and compressed transfer lengths 256 KiB-1, 256 KiB, 256 KiB+1, 300 KiB, 1 MiB x write verification on/off x upstream format; " +
 		"(index) history of get/reader/head/put over index names planted as present/missing/garbage; " +
@@ -93,6 +93,7 @@ var spec = &hx.Spec[Case]{
 		"upstream back door reads/writes chunk files with klauspost zstd directly and chunk IDs with crypto/sha512 directly; index bytes by the independent caibx codec in internal/ref",
 		"casync protocol: a server that ends the session after answering MISSING or after a store failure is accepted (DESIGN section 6, judged outside the statement); the harness then closes the server's pipe ends like a process exit would",
 		"zero-length chunks are not generated (no chunker produces them)",
+		"an upstream object that cannot be decoded is a failure of the hop that has to decode it: a chunk server that converts between formats must answer with an error (never 200, never 404) and GetChunk must fail even for a non-verifying client; where the server passes the stored bytes through unexamined and every hop was told not to verify, nothing is demanded; with a verifying hop the outcome must be an error (not data, not missing)",
 		"chunk size is not bounded by the statement ('all chunks'): chunks of up to 1 MiB (indexes made with a larger maximum than the default 256 KiB) and transfer forms larger than the chunk (zstd framing of incompressible data) are valid uploads and downloads",
 		"a chunk handed out by a transport stays valid for its holder while the transport is used further (Store.GetChunk has no lifetime restriction: chunk servers, caches and the assembler all keep chunks while other requests run on the same store); held chunks are read, never modified, by the check",
 	},
@@ -102,6 +103,10 @@ var spec = &hx.Spec[Case]{
 		"matrix:writable", "matrix:readonly", "matrix:op:get", "matrix:op:has", "matrix:op:put", "matrix:op:putbad",
 		"matrix:state:present", "matrix:state:missing", "matrix:state:other-format", "matrix:state:corrupt",
 		"matrix:read-after-put", "matrix:recompress", "matrix:passthrough",
+		"matrix:state:undecodable", "matrix:damage:trunc", "matrix:damage:garbage", "matrix:damage:raw", "matrix:damage:empty",
+		"matrix:get:server-converts:upstream-undecodable:unverified-read", "matrix:get:server-converts:upstream-undecodable:verified-read",
+		"matrix:get:pass-through:upstream-undecodable:unverified-read", "matrix:get:pass-through:upstream-undecodable:verified-read",
+		"matrix:get:upstream-undecodable:client-verifies", "matrix:get:upstream-undecodable:client-skips", "matrix:undecodable-unverified",
 		"matrix:put:body>256KiB:compressed", "matrix:put:body>256KiB:uncompressed", "matrix:put:body>256KiB:verify-write", "matrix:put:body>256KiB:skip-verify-write",
 		"matrix:get:body>256KiB:compressed", "matrix:get:body>256KiB:uncompressed",
 		"matrix:put:body=256KiB-1:compressed", "matrix:put:body=256KiB:compressed", "matrix:put:body=256KiB+1:compressed",
